@@ -38,7 +38,8 @@ VALUES = [I(-1), I(0), I(1), I(2), I(3), F(0), F(15), F(-25), F(20), F(25), F(-5
           V("list", c=[I(1), I(2)]),
           M([]), M([("a", I(1))]), M([("a", I(1))], "sym"), M([("a", S("x")), ("b", I(2))]), M([("a", S("x")), ("b", S("y"))], "json"),
           M([("a", B(True)), ("b", I(0)), ("c", I(5))]),
-          M([("a", V("nil"))]), M([("a", V("nil")), ("b", I(2))], "sym"),          # a key that is PRESENT and bound to ()
+          M([("a", V("nil"))]), M([("a", V("nil")), ("b", I(2))], "sym"),
+          M([("a", F(20))], "json"), M([("a", I(2)), ("b", F(10))]), V("vec", c=[F(10), I(2)]),      # numbers of the OTHER kind than an enumeration spells          # a key that is PRESENT and bound to ()
           V("fun"), V("bytes", 0, ""), V("bytes", 2, "ab")]
 
 
@@ -66,7 +67,8 @@ def rv(v):
         return "(to-bytes %s)" % json.dumps(v["s"])
     if t == "map":
         if v["s"] == "json":
-            return "(json:load-string %s)" % json.dumps(json.dumps({e["k"]: e["v"]["s"] for e in v["e"]}))
+            # (strings, and floats - every number of a JSON document is a float by default)
+            return "(json:load-string %s)" % json.dumps(json.dumps({e["k"]: (e["v"]["n"] / 10.0 if e["v"]["t"] == "float" else e["v"]["s"]) for e in v["e"]}))
         return "(sorted-map %s)" % " ".join("%s %s" % (("'" + e["k"]) if v["s"] == "sym" else json.dumps(e["k"]), rv(e["v"])) for e in v["e"])
     raise ValueError(t)
 
@@ -115,7 +117,9 @@ def TY(t, *cs): return C("typed", k=t, cs=list(cs))
 def atoms():
     a = [C("in", vs=[I(1), S("a"), B(True)]), C("in", vs=[]), C("positive"), C("negative"),
          # enumerations of strings only (one with the empty string, one spelling a symbol and a boolean of the value domain)
-         C("in", vs=[S("a"), S("ab")]), C("in", vs=[S(""), S("a")]), C("in", vs=[S("foo"), S("true")])]
+         C("in", vs=[S("a"), S("ab")]), C("in", vs=[S(""), S("a")]), C("in", vs=[S("foo"), S("true")]),
+         # enumerations of numbers of ONE kind: a member given as the other kind (2 / 2.0) is the same number
+         C("in", vs=[I(1), I(2), I(3)]), C("in", vs=[F(0), F(20), F(25)]), C("in", vs=[I(0), F(15)])]
     for op in ("gt", "gte", "lt", "lte"):
         a += [C(op, n=n) for n in (0, 2)]
     for op in ("len", "lengt", "lengte", "lenlt", "lenlte"):
@@ -123,7 +127,8 @@ def atoms():
     a += [C("of", cs=[TN("string")]), C("of", cs=[TN("int"), TN("string")]), C("of"), C("of", cs=[TY("int", C("gt", n=0))])]
     a += [C("haskey", k="a"), C("haskey", k="a", cs=[TN("int")]), C("haskey", k="a", cs=[TN("string"), TN("int")]), C("haskey", k="z", cs=[TN("any")]),
           C("mayhavekey", k="b", cs=[TN("int")]), C("mayhavekey", k="a", cs=[TN("string")])]
-    a += [C("haskey", k="a", cs=[C("in", vs=[S(""), S("x")])]), C("mayhavekey", k="a", cs=[C("in", vs=[S("x"), S("foo")])]), C("of", cs=[C("in", vs=[S("a"), S("b")])]), C("of", cs=[C("in", vs=[S(""), S("a")])])]
+    a += [C("haskey", k="a", cs=[C("in", vs=[I(1), I(2)])]), C("mayhavekey", k="a", cs=[C("in", vs=[F(10), F(20)])]), C("of", cs=[C("in", vs=[I(1), I(2)])]),
+          C("haskey", k="a", cs=[C("in", vs=[S(""), S("x")])]), C("mayhavekey", k="a", cs=[C("in", vs=[S("x"), S("foo")])]), C("of", cs=[C("in", vs=[S("a"), S("b")])]), C("of", cs=[C("in", vs=[S(""), S("a")])])]
     a += [C("istrue"), C("isfalse"), C("istruthy"), C("isfalsy")]
     a += [C("regexp", p=p) for p in ("^a", "b$", ".*")]
     return a
